@@ -221,6 +221,10 @@ def _register_misc():
     src_column.register(GROUPS)
     src_prelude.register(GROUPS)
     src_shell2.register(GROUPS)
+    from . import src_shell3            # bld-shell3: the whole of BQLShell.do_run
+    src_shell3.register(GROUPS)
+    from . import src_attach            # bld-shell3 (C09): Connection.__init__ / attach
+    src_attach.register(GROUPS)
 
 
 _register_misc()
